@@ -129,6 +129,26 @@ def unit_long_text(a):
     return stats
 
 
+def check_huge(case, stats):
+    """a document of more than 2^20 lines (thorough tier only): one token per line, then one EOF"""
+    from vlib.tables import RecordingBuilder
+    n = case["lines"]
+    text = "Feature: f\n Scenario: s\n" + "  Given x\n" * (n - 2)
+    b = RecordingBuilder()
+    r = gh.parse(text, builder=b)
+    built = [e[1] for e in b.ev if e[0] == "build"]
+    stats.case(("huge", n), True, sample=case)
+    if r[0] != "ok" or built != list(range(1, n + 2)):
+        raise Violation(case, "a well-formed document of %d lines: %s; the builder received %d tokens (expected one per line and one end-of-file token = %d), last line numbers %r" % (
+            n, "accepted" if r[0] == "ok" else "rejected %r" % (r[1][:2],), len(built), n + 1, built[-3:]))
+
+
+def unit_huge(a):
+    stats = Stats()
+    sweep(stats, [{"sub": "huge", "lines": n} for n in a["lines"]], check_huge)
+    return stats
+
+
 # ------------------------------------------------------------------ (b) real text
 def check_text(case, stats):
     text, dflt = case["text"], case.get("default", "en")
@@ -340,6 +360,8 @@ def unit_golden(a):
 def replay(case, stats):
     if case.get("sub") == "file-scanner":
         return check_file_scanner(case, stats)
+    if case.get("sub") == "huge":
+        return check_huge(case, stats)
     return {"kinds": check_kinds, "text": check_text, "listing": check_listing, "golden": check_golden, "script": check_script, "formatter-reuse": check_formatter_reuse}[case["sub"]](case, stats)
 
 
@@ -354,6 +376,7 @@ def run(ctx):
     from . import magnitude
     magnitude.run_big(ctx, "c18", "check_text", "text")
     ctx.units("after-aborted-parse", unit_prev_combos, [{}])
+    ctx.units("very-long-documents", unit_huge, [{"lines": [70000] if q else [70000, (1 << 20) - 1, (1 << 20) + 8]}])
     ctx.units("real-text", unit_noisy, [{"n": 750 if q else 8000, "seed": ctx.seed, "shard": i} for i in range(8 if q else 16)], procs=16)
     ctx.units("model-token-listings", unit_listing, [{"n": 600 if q else 5000, "seed": ctx.seed, "shard": i} for i in range(8 if q else 16)], procs=16)
     ctx.exhaustive = False
